@@ -8,7 +8,7 @@
     and input: no bound on sizes. *)
 From Coq Require Import List Arith ZArith NArith Bool Sorted Permutation.
 From RimeV Require Import Lookup.Defs Lookup.Model Lookup.Spec Lookup.MapProofs Lookup.QueryProofs Lookup.IterProofs
-     Lookup.LookupProofs Lookup.ScriptProofs Lookup.TableProofs Lookup.Examples Lookup.Compose.
+     Lookup.LookupProofs Lookup.ScriptProofs Lookup.TableProofs Lookup.Examples Lookup.Compose Lookup.WeightProofs Lookup.LazyProofs.
 Import ListNotations.
 
 (** * Table::Query returns, at every end position, exactly the index codes that label a path of the graph *)
@@ -80,24 +80,44 @@ Proof. exact script_phrase_entries_sorted. Qed.
 Print Assumptions C07_script_best_head_first.
 
 (** the property's wording: entries with the same code appear in non-increasing (dictionary) weight order.
-    Proved in the form the code implements - weight PLUS the credibility of the path the chunk was reached over;
-    two chunks of one code reached over different paths (spelling algebra only) may carry different credibilities,
-    and then the dictionary weights of the undeduplicated stream need not be monotone (the duplicates are removed by
-    DistinctTranslation; that the first occurrences are monotone is covered by the correspondence only). *)
-Definition C07_same_code_weight_order_full : Prop := forall g t start predict l1 a l2 b l3 (wa wb : Z),
-  wf_graph g -> table_sorted t ->
-  script_phrase_entries (lookup g t start predict) = l1 ++ a :: l2 ++ b :: l3 ->
-  fst a = fst b -> d_code (snd a) = d_code (snd b) ->
-  table_has t (d_code (snd a)) (mkTE (d_text (snd a)) wa) -> table_has t (d_code (snd b)) (mkTE (d_text (snd b)) wb) ->
-  (wb <= wa)%Z.
-
-Theorem C07_same_code_weight_order_partial : forall g t start predict l1 a l2 b l3,
+    In the form the code implements (weight PLUS the credibility of the path the chunk was reached over): *)
+Theorem C07_same_end_weight_plus_credibility_order : forall g t start predict l1 a l2 b l3,
   wf_graph g -> table_sorted t ->
   script_phrase_entries (lookup g t start predict) = l1 ++ a :: l2 ++ b :: l3 ->
   fst a = fst b -> (d_match (snd a) =? 0) = (d_match (snd b) =? 0) ->
   (d_w (snd b) <= d_w (snd a))%Z.
 Proof. exact script_same_end_weight_order. Qed.
-Print Assumptions C07_same_code_weight_order_partial.
+Print Assumptions C07_same_end_weight_plus_credibility_order.
+
+(** for the pure dictionary weight the statement is FALSE of the undeduplicated stream: two chunks of one code
+    reached over paths of different credibility are merged by weight + credibility (witness: A 5, B 3 under one code
+    reached with credibilities 0 and -10: A, B, A, B).  The undeduplicated stream is not observable - the
+    translator wraps it in DistinctTranslation - and the property speaks of the candidate list: *)
+Theorem C07_raw_stream_weight_order_refuted : ~ raw_stream_weight_order.
+Proof. exact raw_stream_weight_order_refuted. Qed.
+Print Assumptions C07_raw_stream_weight_order_refuted.
+
+(** ... in the candidate list (after DistinctTranslation, for every set of texts already shown) two entries of one
+    code, one end position and one exactness class appear in non-increasing DICTIONARY weight order: FULL. *)
+Theorem C07_same_code_weight_order : forall g t predict seen l1 a l2 b l3 ca ta cb tb,
+  wf_graph g -> wf_table t -> table_sorted t -> 0 < g_ilen g ->
+  distinct_pe seen (script_phrase_entries (lookup g t 0 predict)) = l1 ++ a :: l2 ++ b :: l3 ->
+  fst a = fst b ->
+  In (fst a, ca) (lookup_chunks g t 0 predict) -> In ta (c_ents ca) -> snd a = mk_dentry ca ta ->
+  In (fst b, cb) (lookup_chunks g t 0 predict) -> In tb (c_ents cb) -> snd b = mk_dentry cb tb ->
+  c_code ca = c_code cb -> (c_match ca <? length (c_code ca)) = (c_match cb <? length (c_code cb)) ->
+  (te_w tb <= te_w ta)%Z.
+Proof. exact script_distinct_same_code_weight_order. Qed.
+Print Assumptions C07_same_code_weight_order.
+
+(** the candidate list of ScriptTranslator::Query is the sentence (if any) followed by that deduplicated stream *)
+Theorem C07_script_query_shape : forall (poet : wgraph -> nat -> option sentence) wordcompl mh g t,
+  let predict := wordcompl && (g_ilen g =? g_input_len g) in
+  exists sent seen, (sent = [] \/ exists s, sent = [sentence_cand s]) /\
+    script_query poet wordcompl mh g t =
+    sent ++ map phrase_cand (distinct_pe seen (script_phrase_entries (lookup g t 0 predict))).
+Proof. exact script_query_shape. Qed.
+Print Assumptions C07_script_query_shape.
 
 (** * the sentence is a concatenation of spelled entries covering the interpreted input (Poet: oracle) *)
 Theorem C07_sentence_is_concatenation : forall (poet : wgraph -> nat -> option sentence),
@@ -161,23 +181,39 @@ Theorem C07_table_completion_sound : forall presort pr syls t code d,
 Proof. exact table_completion_candidates_sound. Qed.
 Print Assumptions C07_table_completion_sound.
 
-(** exact matches first in weight order, then completions: the full statement quantifies over every number of keys;
-    proved when fewer than 10 keys extend the input (one fetch of LazyTableTranslation).  The fetch-more protocol for
-    10 or more keys (limit 10, 100, ...; Skip over the entries already shown) is covered by the correspondence only. *)
-Definition C07_table_exact_then_completion_full : Prop := forall pr syls t code,
+(** exact matches first in weight order, then completions, for ANY number of extending keys (the fetch-more protocol
+    with limits 10, 100, 1000, ... and Skip): the chunks of the first ten keys (the key equal to the input is the
+    first) are drained completely, best head first - no remaining code before remaining code, then weight
+    non-increasing -, and everything shown afterwards is an entry of a chunk of a later key: FULL. *)
+Theorem C07_table_exact_then_completion : forall pr syls t code,
   table_sorted t ->
-  let chunks := snd (lookup_words pr syls t code true 0) in
-  Permutation (table_entries true true pr syls t code) (all_entries chunks) /\
-  StronglySorted dle (table_entries true true pr syls t code).
+  let b1 := B1 pr syls t code in
+  let r := R pr syls t code in
+  snd (lookup_words pr syls t code true 0) = b1 ++ r /\
+  exists rest,
+    table_entries true true pr syls t code = drain_all (sort_head b1) ++ rest /\
+    Permutation (drain_all (sort_head b1)) (all_entries b1) /\
+    StronglySorted dle (drain_all (sort_head b1)) /\
+    forall d, In d rest -> exists c te, In c r /\ In te (c_ents c) /\ d = mk_dentry c te.
+Proof. exact table_exact_then_completion. Qed.
+Print Assumptions C07_table_exact_then_completion.
 
-Theorem C07_table_exact_then_completion_partial : forall pr syls t code,
+(** with fewer than 10 extending keys (one fetch) the whole list is one best-head-first merge of all chunks *)
+Theorem C07_table_single_fetch_globally_sorted : forall pr syls t code,
   table_sorted t ->
   fst (lookup_words pr syls t code true 10) < 10 ->
   let chunks := snd (lookup_words pr syls t code true 0) in
   Permutation (table_entries true true pr syls t code) (all_entries chunks) /\
   StronglySorted dle (table_entries true true pr syls t code).
 Proof. exact table_exact_then_completion_partial. Qed.
-Print Assumptions C07_table_exact_then_completion_partial.
+Print Assumptions C07_table_single_fetch_globally_sorted.
+
+(** ... which is false of the faithful model beyond ten keys (a later fetch is drained after the earlier one; and a
+    fetch that brings no new entry ends the translation).  The property asks for no order among completions nor
+    for all of them, so this is not a violation; eleven-key witness, the eleventh key with the best weight. *)
+Theorem C07_table_global_order_refuted : ~ global_order_full.
+Proof. exact global_order_full_refuted. Qed.
+Print Assumptions C07_table_global_order_refuted.
 
 (** [dle] on table entries: no remaining code (code equals the input) first, by non-increasing weight *)
 Theorem C07_table_order_meaning : forall a b,
